@@ -64,9 +64,10 @@ PROPS = {
         "rules": [HF.r_bitcopy, BR.r_bracket, BR.r_reader_writer, BR.r_fanout, BR.r_columns, FW.r_forward,
                   todo({"push", "index"}, ("Region", "Push")), X.r_iter_readitems,
                   A.r_freeze, A.r_foreign_writers, A.r_reject_stored, I.r_concat, CD.r_tags, CD.r_bitmap, CD.r_literal_guard, O.r_zip_byref, FW.r_skip_take,
-                  L.r_reset, A.r_append, CD.r_stats, FW.r_pushstorage, CD.r_decode_total, O.r_byref_while, CD.r_bytesmap, HF.r_chunk, HF.r_chunk_align, I.r_len_step],
+                  L.r_reset, A.r_append, CD.r_stats, FW.r_pushstorage, CD.r_decode_total, O.r_byref_while, CD.r_bytesmap, HF.r_chunk, HF.r_chunk_align, I.r_len_step, O.r_onto],
         "explanation": "Static analysis of the un-instantiated MIR of every Push/Region impl: decides the structural necessary conditions of the round trip for all instantiations and paths, not the value equality itself.",
         "decided": [
+            "R-ONTO also under the round trip: the owned conversion written by clone_onto overwrites its target on every path (a None item does not leave a stale Some behind)",
             "R-LEN-STEP also under the round trip: a value Stride::push accepts is represented by the state it leaves (a saturated stride does not resume stepping)",
             "R-APPEND (whole-byte copies): no push path copies whole bytes for a range of bits into the encoded buffer without masking the tail",
             "R-CHUNK (alignment): every (chunk, count) pair BitIterator::next returns shifts the byte by 8 - (cursor % 8) - count: the chunk starts at the cursor's offset within the byte (an item that starts and ends inside one byte is not read from the top of the byte)",
@@ -214,9 +215,11 @@ PROPS = {
     "C10": {
         "rules": [L.r_reserve_only, L.r_fresh, L.r_seed,
                   todo({"reserve_items", "reserve_regions", "merge_regions", "reserve", "with_capacity"}),
-                  CD.r_tags, CD.r_bitmap, HF.r_code_source, CD.r_stats, c06_peel, HF.r_stats_and_arms, L.r_merge_sources_may_be_empty, CD.r_bytesmap, HF.r_tail, CD.r_literal_guard, HF.r_refusal],
+                  CD.r_tags, CD.r_bitmap, HF.r_code_source, CD.r_stats, c06_peel, HF.r_stats_and_arms, L.r_merge_sources_may_be_empty, CD.r_bytesmap, HF.r_tail, CD.r_literal_guard, HF.r_refusal, L.r_merge_sources_polled, L.r_clone],
         "explanation": "Reserve paths may only read/measure/reserve; merged regions are built from empty-sized constructors and seeded like default().",
         "decided": [
+            "R-COVER (sources): merge_regions / merge_capacity / reserve_regions hand on no source iterator that was polled beforehand (the first source contributes)",
+            "R-CLONE also under C10: a region cloned by clone_from carries every field a later merge consults",
             "R-GUARD (literal) and R-REFUSE also under C10: a merged coded region refuses exactly what its acceptance contract says","R-RESERVE-ONLY", "R-FRESH", "R-SEED", "R-TODO", "for the dictionary-coded region, the merged codec's reader and writer tables agree (R-TAGS/R-BITMAP)",
             "R-FRESH (empty sources): no merge / reserve body looks a source up at `len - k` without a test that it is non-empty (sources may be fresh or cleared regions)",
             "R-HUFF-ARMS: every push form of the Huffman container, in every arm (raw / encoded source into raw / encoded target), counts each stored symbol: the code of the next merge generation is built from these counts alone, so an uncounted symbol has no code there and pushing it panics",
@@ -298,9 +301,10 @@ PROPS = {
         "assumptions": ["only meaningful in the serde feature configuration"],
     },
     "C17": {
-        "rules": [AL.r_reserve_single_item, AL.r_cover_merge, AL.r_cover_reserve, AL.r_cover_reserve_vec, AL.r_reserve_items_agree, AL.r_reserve_exact_count, AL.r_noalloc, AL.r_reserve_no_truncation, AL.r_reserve_hint_lower, AL.r_reserve_additional, AL.r_reserve_cumulative, AL.r_capacity_uncapped, FW.r_skip_take, A.r_reserve_level, AL.r_reserve_counts_elements],
+        "rules": [L.r_reserve_only, AL.r_reserve_single_item, AL.r_cover_merge, AL.r_cover_reserve, AL.r_cover_reserve_vec, AL.r_reserve_items_agree, AL.r_reserve_exact_count, AL.r_noalloc, AL.r_reserve_no_truncation, AL.r_reserve_hint_lower, AL.r_reserve_additional, AL.r_reserve_cumulative, AL.r_capacity_uncapped, FW.r_skip_take, A.r_reserve_level, AL.r_reserve_counts_elements],
         "explanation": "Pre-sizing must cover every storage field from the same-named field of the sources; push paths of non-coded regions build no temporaries and never exact-fit.",
         "decided": [
+            "R-RESERVE-ONLY also under C17, including reserve bodies a crate trait provides: no reserve path replaces its receiver (an earlier, larger reservation survives)",
             "R-RESERVE-ITEMS (all items): no reserve in reserve_items / reserve_regions is sized from a single element pulled out of the announced items","R-COVER(merge_regions)", "R-COVER(reserve_regions)", "R-RESERVE-ITEMS", "R-NOALLOC / R-AMORTISED",
             "R-RESERVE-ITEMS (additional): no reserve amount contains the receiver's own length",
             "R-RESERVE-ITEMS (un-stepped): an iterator of announced items that was advanced by hand is not handed to a child's reserve afterwards",
@@ -315,6 +319,8 @@ PROPS = {
         "rules": [L.r_cover_heap, L.r_retain, L.r_retain_noshrink, todo({"heap_size"}), L.r_reset, L.r_reserve_only],
         "explanation": "heap_size must forward the caller's callback to every storage field and report (len-derived, capacity-derived) in that order.",
         "decided": [
+            "R-COVER (conditional reports): heap_size calls the caller's callback under no condition on the size being reported",
+            "R-COVER (totals): a summarising callback accumulates the size and the capacity of one report into the same total",
             "R-COVER (wrappers): a callback wrapper passes the reported size on unreduced (no subtraction / saturating_sub / min of it)","R-COVER(heap_size)", "R-RETAIN: clear() never replaces a storage whose capacity is reported", "R-TODO",
             "R-RESET: clear() resets every storage field on every path (an early return that skips the reset keeps pushed payload accounted after clear)",
             "R-RESERVE-ONLY: reserve paths never shrink or replace a storage (a spine shrunk by resize_with drops payload and capacity from the report without a clear)"],
